@@ -1,6 +1,8 @@
 package main
 
 import (
+	"go/types"
+	"go/constant"
 	"fmt"
 	"go/token"
 	"strings"
@@ -32,6 +34,8 @@ func callNamed(v ssa.Value, name string) bool {
 
 func runC16(c *Ctx) {
 	p := c.P
+	c16CachePersisted(c)
+	c16VerifiedRefs(c)
 	prep := p.Fn("commands", "(*uploadContext).prepareUpload")
 	rep := p.Fn("commands", "(*uploadContext).ReportErrors")
 	if prep == nil || rep == nil {
@@ -496,4 +500,91 @@ var c16Canaries = []Canary{
 	{Name: "clear-per-page", ExpectKey: "C16.R3#cache.Clear", Edits: []Edit{{File: "locking/locks.go", Find: "		c.cache.Clear()\n\n		for {\n			list, status, err := c.client.SearchVerifiable(c.Remote, body)", Repl: "		for {\n			list, status, err := c.client.SearchVerifiable(c.Remote, body)\n			c.cache.Clear()"}}},
 	{Name: "inverted-write-flag", ExpectKey: "C16.R4#write-bit:lockable-file", Edits: []Edit{{File: "locking/lockable.go", Find: "		err := tools.SetFileWriteFlag(file, c.IsFileLockedByCurrentCommitter(file))", Repl: "		err := tools.SetFileWriteFlag(file, !c.IsFileLockedByCurrentCommitter(file))"}}},
 	{Name: "post-merge-skips-flags", ExpectKey: "C16.R4#hook-reapplies-write-flags:postMergeCommand", Edits: []Edit{{File: "commands/command_post_merge.go", Find: "	err := lockClient.FixAllLockableFileWriteFlags()", Repl: "	var err error\n	_ = lockClient"}}},
+}
+
+// c16CachePersisted (R3, persistence): the cache of own locks is written to disk by Client.Close(). The lock and
+// unlock commands defer Close(), but deferred calls do not run when the process leaves through os.Exit: an exit
+// taken after the server granted or released a lock has to call Close() first, or the local list of own locks
+// (and with it the write bits set by the post-checkout/commit/merge hooks) disagrees with the server.
+func c16CachePersisted(c *Ctx) {
+	p := c.P
+	mutators := []string{"(*locking.Client).LockFile", "(*locking.Client).UnlockFile", "(*locking.Client).UnlockFileById"}
+	n := 0
+	for _, fn := range p.RepoFuncs(func(s string) bool { return s == Mod+"/commands" }) {
+		for _, mc := range CallsIn(fn, mutators...) {
+			call, ok := mc.(*ssa.Call)
+			if !ok {
+				continue
+			}
+			n++
+			bad := ""
+			closed := nonNil{call}
+			ExploreX(nil, call, nil, nil, nil, nil, func(in ssa.Instruction, st PState) bool {
+				if cc := AsCall(in); cc != nil {
+					if CalleeName(cc) == "(*locking.Client).Close" {
+						if _, isDefer := in.(*ssa.Defer); !isDefer {
+							st[closed] = ssa.NewConst(constant.MakeBool(true), types.Typ[types.Bool])
+						}
+						return true
+					}
+					if _, isGo := in.(*ssa.Go); isGo {
+						return true
+					}
+					if _, isDefer := in.(*ssa.Defer); isDefer {
+						return true
+					}
+				}
+				if noReturnCommands(in) {
+					if _, ok := st[closed]; !ok {
+						if _, isPanic := in.(*ssa.Panic); !isPanic {
+							bad = p.InstrPos(in)
+						}
+					}
+					return false
+				}
+				return true
+			})
+			c.Check(bad == "", "R3", fmt.Sprintf("cache-saved-before-exit:%s#%d", FnName(fn), n), p.InstrPos(mc), "every exit after a granted/released lock saves the lock cache first",
+				"after the server granted or released a lock the command can leave through an exit at "+bad+" without Client.Close(): deferred calls do not run on os.Exit, the lock cache is not saved and the local list of own locks no longer matches the server")
+		}
+	}
+	c.AtLeast("R3", "lock-changing calls in commands", n, 3)
+}
+
+// c16VerifiedRefs (R1, per-ref verification): the verifier asks the server for the locks of each ref being pushed
+// and remembers which refs it has asked about. The memory has to be keyed by the fully qualified ref (what the
+// server is asked about): keyed by the short name, refs/heads/x and refs/tags/x count as one, the second is never
+// verified and locks held by others on it do not block the push.
+func c16VerifiedRefs(c *Ctx) {
+	p := c.P
+	fn := p.Fn("commands", "(*lockVerifier).Verify")
+	if fn == nil {
+		c.Missing("R1", "(*commands.lockVerifier).Verify", "not found")
+		return
+	}
+	n := 0
+	for _, b := range fn.Blocks {
+		for _, in := range b.Instrs {
+			var key ssa.Value
+			what := ""
+			switch x := in.(type) {
+			case *ssa.Lookup:
+				if _, f, _, ok := FieldOf(x.X); ok && f == "verifiedRefs" {
+					key, what = x.Index, "lookup"
+				}
+			case *ssa.MapUpdate:
+				if _, f, _, ok := FieldOf(x.Map); ok && f == "verifiedRefs" {
+					key, what = x.Key, "store"
+				}
+			}
+			if key == nil {
+				continue
+			}
+			n++
+			cc, _, isRes := CallResult(key)
+			c.Check(isRes && CalleeName(cc.Common()) == "(*git.Ref).Refspec", "R1", fmt.Sprintf("verified-refs-keyed-by-full-ref:%s#%d", what, n), p.InstrPos(in), "verified refs are remembered by their fully qualified name",
+				"the set of already verified refs is keyed by "+describeValue(p, key)+" instead of the fully qualified ref: a branch and a tag with the same short name count as one ref, the second is never verified and others' locks on it do not block the push")
+		}
+	}
+	c.AtLeast("R1", "accesses to the verified-refs set", n, 2)
 }
